@@ -250,8 +250,36 @@ def run_cli(args, cwd, env_extra=None):
     return p.stdout.decode('utf-8', 'replace'), p.stderr.decode('utf-8', 'replace'), p.returncode
 
 
+def _write_dsc(root, tree, idx):
+    """a "3.0 (native)" source package whose tarball holds the same tree (plus debian/)"""
+    import hashlib
+    import tarfile
+    src = os.path.join(root, 'src', 'verif-test%d-1.0' % idx)
+    shutil.copytree(tree, src, symlinks=True, ignore=shutil.ignore_patterns('DEBIAN'))
+    os.makedirs(os.path.join(src, 'debian', 'source'))
+    with open(os.path.join(src, 'debian', 'changelog'), 'w') as f:
+        f.write('verif-test%d (1.0) unstable; urgency=low\n\n  * x\n\n -- X <x@example.org>  Thu, 01 Nov 2012 14:42:00 +0100\n' % idx)
+    with open(os.path.join(src, 'debian', 'control'), 'w') as f:
+        f.write('Source: verif-test%d\nMaintainer: X <x@example.org>\n\nPackage: verif-test%d\nArchitecture: all\nDescription: test\n' % (idx, idx))
+    with open(os.path.join(src, 'debian', 'source', 'format'), 'w') as f:
+        f.write('3.0 (native)\n')
+    with open(os.path.join(src, 'debian', 'rules'), 'w') as f:
+        f.write('#!/usr/bin/make -f\n%:\n\ttrue\n')
+    os.chmod(os.path.join(src, 'debian', 'rules'), 0o755)
+    tarname = 'verif-test%d_1.0.tar.gz' % idx
+    with tarfile.open(os.path.join(root, tarname), 'w:gz') as tar:
+        tar.add(src, arcname=os.path.basename(src))
+    data = open(os.path.join(root, tarname), 'rb').read()
+    dsc = os.path.join(root, 'verif-test%d_1.0.dsc' % idx)
+    with open(dsc, 'w') as f:
+        f.write('Format: 3.0 (native)\nSource: verif-test%d\nBinary: verif-test%d\nArchitecture: all\nVersion: 1.0\nMaintainer: X <x@example.org>\n'
+                'Standards-Version: 4.6.2\nChecksums-Sha256:\n %s %d %s\nFiles:\n %s %d %s\n'
+                % (idx, idx, hashlib.sha256(data).hexdigest(), len(data), tarname, hashlib.md5(data).hexdigest(), len(data), tarname))
+    return dsc
+
+
 def deb_case(ctx, idx, rng):
-    """build a .deb with dpkg-deb from a generated tree; compare --unpack-deb with per-member runs"""
+    """build a .deb with dpkg-deb (and a native .dsc holding the same tree) from a generated tree; compare --unpack-deb with per-member runs"""
     root = os.path.join(common.WORK, 'c17', 'deb%d' % idx)
     tree = os.path.join(root, 'tree')
     os.makedirs(os.path.join(tree, 'DEBIAN'))
@@ -279,43 +307,60 @@ def deb_case(ctx, idx, rng):
             with open(os.path.join(tree, name), 'w', encoding='utf-8') as f:
                 f.write(text if kind != 'txt' else 'hello\n')
         members.append(name)
+    # members the loaders reject: their diagnostics must be the ones of the extracted file too
+    if idx % 2 == 0:
+        os.makedirs(os.path.join(tree, 'usr/share/po'), exist_ok=True)
+        broken = {'usr/share/po/broken%d.po' % idx: (pogen.render(content_catalog(rng)) + '\nmsgid "unterminated\nmsgstr ""\n').encode(),
+                  'usr/share/po/broken%d.mo' % idx: b'\xde\x12\x04\x95\x00\x00\x00\x00\x05\x00\x00\x00junk',
+                  'usr/share/po/broken%db.po' % idx: b'msgid ""\nmsgstr ""\n"Content-Type: text/plain; charset=UTF-8\\n"\n\nmsgid "a"\nmsgstr "\xff"\n',
+                  'usr/share/po/empty%d.pot' % idx: b''}
+        for name, data in broken.items():
+            with open(os.path.join(tree, name), 'wb') as f:
+                f.write(data)
+            members.append(name)
     if rng.random() < 0.5 and members:
         os.symlink(os.path.basename(members[0]), os.path.join(tree, os.path.dirname(members[0]), 'link.po'))
     deb = os.path.join(root, 'pkg%d.deb' % idx)
     p = subprocess.run(['dpkg-deb', '--root-owner-group', '-b', tree, deb], stdout=subprocess.PIPE, stderr=subprocess.PIPE)
     if p.returncode != 0:
         return 'skipped: dpkg-deb: ' + p.stderr.decode()[:100]
-    tmpdir = os.path.join(root, 'tmp')
-    os.makedirs(tmpdir)
-    out, err, rc = run_cli(['--unpack-deb', os.path.basename(deb)], root, {'TMPDIR': tmpdir})
-    left = os.listdir(tmpdir)
-    # per-member runs on the tree, path rewritten to <package>/<member>
-    exp = {}
+    packages = [deb]
+    if have('dpkg-source'):
+        packages.append(_write_dsc(root, tree, idx))
+    # per-member runs on the tree
+    per_member = {}
     for m in members:
         if m.endswith('.txt'):
             continue
-        o, e, r = run_cli([m], tree)
-        exp[m] = o.replace(': %s: ' % m, ': %s/%s: ' % (os.path.basename(deb), m))
-    got_lines = sorted(out.split('\n')[:-1])
-    exp_lines = sorted(l for o in exp.values() for l in o.split('\n')[:-1])
+        per_member[m] = run_cli([m], tree)[0]
     problems = []
-    if rc != 0 or err:
-        problems.append('rc=%d stderr=%r' % (rc, err[-200:]))
-    if got_lines != exp_lines:
-        problems.append('diagnostics differ: only with --unpack-deb %r ; only per-member %r' % ([l for l in got_lines if l not in exp_lines][:2], [l for l in exp_lines if l not in got_lines][:2]))
-    # grouping: the lines of one member are contiguous and in the member's own order
-    for m, o in exp.items():
-        ls = o.split('\n')[:-1]
-        allg = out.split('\n')[:-1]
-        if ls:
-            try:
-                i = allg.index(ls[0])
-                if allg[i:i + len(ls)] != ls:
-                    problems.append('lines of member %s are not contiguous / ordered' % m)
-            except ValueError:
-                pass
-    if left:
-        problems.append('temporary files left behind: %r' % left[:3])
+    for pkg in packages:
+        tmpdir = os.path.join(root, 'tmp-' + os.path.basename(pkg))
+        os.makedirs(tmpdir)
+        out, err, rc = run_cli(['--unpack-deb', os.path.basename(pkg)], root, {'TMPDIR': tmpdir})
+        left = os.listdir(tmpdir)
+        what = os.path.basename(pkg)
+        # path rewritten to <package>/<member>
+        exp = {m: o.replace(': %s: ' % m, ': %s/%s: ' % (what, m)) for m, o in per_member.items()}
+        got_lines = sorted(out.split('\n')[:-1])
+        exp_lines = sorted(l for o in exp.values() for l in o.split('\n')[:-1])
+        if rc != 0 or err:
+            problems.append('%s: rc=%d stderr=%r' % (what, rc, err[-200:]))
+        if got_lines != exp_lines:
+            problems.append('%s: diagnostics differ: only with --unpack-deb %r ; only per-member %r' % (what, [l for l in got_lines if l not in exp_lines][:2], [l for l in exp_lines if l not in got_lines][:2]))
+        # grouping: the lines of one member are contiguous and in the member's own order
+        for m, o in exp.items():
+            ls = o.split('\n')[:-1]
+            allg = out.split('\n')[:-1]
+            if ls:
+                try:
+                    i = allg.index(ls[0])
+                    if allg[i:i + len(ls)] != ls:
+                        problems.append('%s: lines of member %s are not contiguous / ordered' % (what, m))
+                except ValueError:
+                    pass
+        if left:
+            problems.append('%s: temporary files left behind: %r' % (what, left[:3]))
     shutil.rmtree(root, ignore_errors=True)
     return '; '.join(problems) if problems else None
 
@@ -326,7 +371,7 @@ def check(ctx):
     rng = ctx.rng
     shutil.rmtree(os.path.join(common.WORK, 'c17'), ignore_errors=True)
     os.makedirs(os.path.join(common.WORK, 'c17'))
-    ctx.stats['tools'] = {t: have(t) for t in ('msgcat', 'msgfmt', 'dpkg-deb')}
+    ctx.stats['tools'] = {t: have(t) for t in ('msgcat', 'msgfmt', 'dpkg-deb', 'dpkg-source')}
     # ---- PO spellings
     n = 150 if ctx.quick() else 4000
     payloads = [(i, pogen.render(content_catalog(rng)), rng.randrange(1 << 30)) for i in range(n)]
